@@ -59,6 +59,10 @@ def case_flags(rng, idx):
     f['max_stmts'] = rng.choice([3, 5, 7])
     # gated slice: source spelled in upper case while dic2p / entry_points use lower case
     f['upper_case'] = idx % 12 == 7
+    # gated slice: the same parametrised variable passed to two dummies of a callee
+    f['dup_pass'] = idx % 12 == 9
+    if f['dup_pass']:
+        f['expr_actual'] = True
     return f
 
 
@@ -160,7 +164,8 @@ def run_case(idx, rng, tier, ctx):
             'entry_points': None if entry == 'driver' and rng.random() < 0.6 else (entry,),
             'abort': rng.choice(['default', 'default', 'error_stop', 'call_abort'])}
     tag = ('rbv' if opts['replace_by_value'] else 'par') + (':upper-case-source' if flags['upper_case'] else '') + \
-        (':kind-suffixed-literals' if rbv and flags['kind_literals'] else '')
+        (':kind-suffixed-literals' if rbv and flags['kind_literals'] else '') + \
+        (':same-variable-passed-twice' if 'hazard_same_variable_passed_twice' in case.features else '')
     feats = sorted(case.features) + [f'abort_{opts["abort"]}', f'entry_{"kernel" if entry != "driver" else ("named" if opts["entry_points"] else "role")}',
                                      'replace_by_value' if opts['replace_by_value'] else 'parameter_declaration',
                                      f'n_parametrised_{len(sel)}'] + [f'role_{ro}' for ro in sel] + \
